@@ -24,7 +24,7 @@ BASE_CFG = {
     "n_tables": (1, 2),
     "final_order": 0.6,
     "ops": {"ordered_window": 5, "window": 4, "natural_join": 4, "order_rows": 6},
-    "null_order_cols": True,
+    "null_order_cols": 0.8,
     "block_table_prob": 0.25,
     "drop_order_col_prob": 0.7,
 }
